@@ -38,3 +38,10 @@ package grammar
 //@   uses sem
 //@   requires g != nil
 //@   ensures r == lextext(g.lex, left, right - 1)
+
+// Build runs the generated lexer and parser (outside the verifier's reach: bounded stand-in /verif/bounded/parse).
+// Assumed: a successful Build returns a grammar whose root node exists.
+//@ func Build(xpath) (r, err)
+//@   property C08 C15
+//@   trusted
+//@   ensures err == nil ==> r.BSR != nil && wf(r.BSR)
